@@ -129,7 +129,8 @@ func fetch(
 		// common case: the block was populated by the hasher
 		// so store it if requested
 		err := options.store(ctx, bitswapBlk)
-		if err != nil {
+		if err != nil && !errors.Is(err, ErrReadOnly) {
+			// a read-only store (Blockstore over EDS accessors) has nothing to store into
 			log.Error("failed to store the new Bitswap block: %s", err)
 		}
 	}
